@@ -365,6 +365,28 @@ class _Frame(PyStub):
         import numpy as np
         self.cols[k] = np.array(list(v.v if isinstance(v, _Col) else v), dtype=object)
 
+    @property
+    def index(self):
+        import numpy as np
+        return np.arange(len(self))
+
+    def drop(self, labels=None, index=None, inplace=False, **kw):
+        """rows dropped by their (positional) labels; inplace=True changes this very table, as pandas does"""
+        import numpy as np
+        from ..symx import Opaque as _Opaque
+        if kw:
+            raise _Opaque('DataFrame.drop keyword(s) %s are outside the model' % sorted(kw))
+        gone = {int(v) for v in np.ravel(labels if labels is not None else index)}
+        keep = np.array([i not in gone for i in range(len(self))], dtype=bool)
+        new = {c: v[keep] for c, v in self.cols.items()}
+        if inplace:
+            object.__setattr__(self, 'cols', new)
+            return None
+        return _Frame(new)
+
+    def copy(self, deep=True):
+        return _Frame({c: v.copy() for c, v in self.cols.items()})
+
 
 def flatten_model(ctx):
     """Log.flatten interpreted on model tables (exact Step values, tagged data values)"""
@@ -408,8 +430,16 @@ def flatten_model(ctx):
     pd_.concat = concat
     pd_.DataFrame = 'DataFrame'
 
+    stored_before, stored_sims = [], []
+
+    def stored_unchanged():
+        now = [(None if s_.thermo is None else {c: list(v) for c, v in s_.thermo.cols.items()}) for s_ in stored_sims]
+        return now == stored_before
+
     def flat(style, runs, first=None, last=None, give_style=True):
         sims = [Sim(thermo=(None if r is None else _Frame(r))) for r in runs]
+        stored_before[:] = [(None if s_.thermo is None else {c: list(v) for c, v in s_.thermo.cols.items()}) for s_ in sims]
+        stored_sims[:] = sims
         obj = SymObj(cls, {'_Log__simulations': sims}, 'self')
         ev = SymEval(module_aliases(ctx.mod(LOG)))
         ev.globals = {'pd': pd_, 'Simulation': Sim}
@@ -474,6 +504,7 @@ def flatten_model(ctx):
     for style, desc in (('first', "'first': rows of earlier runs are kept; a later run contributes only the rows whose Step exceeds every Step already present"),
                         ('last', "'last': a later run replaces the earlier rows from its first Step on"), ('all', "'all': every row of every run, in order")):
         got = flat(style, RUNS)
+        ctx.ob('FLATTEN', loc, '%s: the per-run records of the log are left as they were read (flattening builds a new table)' % style, stored_unchanged(), node=fn, key='flatten keeps runs ' + style)
         want = brute(style, RUNS)
         ok = got == want and (style == 'all' or len({dict(r)['Step'] for r in got}) == len(got))
         ctx.ob('FLATTEN', loc, '%s (five records: overlapping, touching and disjoint step ranges, one record without a table, differing column sets); each row keeps the values of the run it came from' % desc, bool(ok),
@@ -582,9 +613,12 @@ def restart(ctx):
              ('eleventh restart (numbering, not name order)', ['log.lammps'] + ['log-%d.lammps' % i for i in range(1, 11)], True, True, [('log.lammps', 'log-11.lammps')],
               ['log-%d.lammps' % i for i in range(1, 12)] + ['STDOUT-OF-THIS-RUN']),
              ('restart script given but nothing ran before', [], True, True, [], ['STDOUT-OF-THIS-RUN']),
-             ('no restart script', ['log.lammps'], False, False, [], ['log.lammps'])]
-    for tag, files, screen, rs, want_ren, want_reads in cases:
-        reads, renames, why = scenario(files, screen, restart=rs)
+             ('no restart script', ['log.lammps'], False, False, [], ['log.lammps']),
+             ('a log file name that itself contains a hyphen, fourth restart', ['stage-2.lammps', 'stage-2-1.lammps', 'stage-2-2.lammps', 'stage-2-3.lammps'], False, True, [('stage-2.lammps', 'stage-2-4.lammps')],
+              ['stage-2-1.lammps', 'stage-2-2.lammps', 'stage-2-3.lammps', 'stage-2-4.lammps', 'stage-2.lammps'], 'stage-2.lammps')]
+    for case in cases:
+        tag, files, screen, rs, want_ren, want_reads = case[:6]
+        reads, renames, why = scenario(files, screen, restart=rs, logfile=case[6] if len(case) > 6 else 'log.lammps')
         ctx.ob('RESTART', loc, '%s: the previous log is renamed to the next free number and the returned Log reads every earlier attempt in order, then the current run' % tag,
                reads == want_reads and renames == want_ren, why or 'renames %s, reads %s' % (renames, reads), node=fn, key='restart ' + tag)
     ctx.floor('RESTART', len(cases), 5)
